@@ -34,7 +34,9 @@ AS_TYPES = ["i32", "Option<i32>", "Vec<Inner>", "Inner", "Gen<i32>", "(i32, Stri
             "Box<Inner>", "[i32; 2]", "Option<Vec<Gen<Inner>>>", "std::ops::Range<i32>", "[Inner; 64]", "Vec<[i32; 65]>"]
 
 
-PRELUDE = """pub struct Opaque;
+TWO_FLAT = (("Inner", "Pair<String>"), ("Gen<i32>", "Pair<String>"), ("Inner", "Gen<Inner>"), ("Box<Inner>", "Gen<i32>"))
+PRELUDE = "".join("#[derive(TS)] pub struct Both%d { #[ts(flatten)] pub f: %s, #[ts(flatten)] pub h: %s }\n#[derive(TS)] pub struct BothSpelt%d { %s, %s }\n"
+                  % (n_, a_, b_, n_, FLAT[a_], FLAT[b_]) for n_, (a_, b_) in enumerate(TWO_FLAT)) + """pub struct Opaque;
 #[derive(TS)] pub struct Mid1 { #[ts(inline)] pub inner: Inner, pub m: i32 }
 #[derive(TS)] pub struct Mid2 { #[ts(flatten)] pub inner: Inner, pub m: i32 }
 #[derive(TS)] pub struct MidFlat { pub x: i32, pub y: Option<String>, pub m: i32 }
@@ -95,6 +97,21 @@ def pres_units():
     for t, fields in FLAT.items():
         pairs.append(("flatten", t, unit("pub struct @ { #[ts(flatten)] pub f: %s, pub tail: String }" % t), unit("pub struct @ { %s, pub tail: String }" % fields)))
         pairs.append(("flatten-only", t, unit("pub struct @ { #[ts(flatten)] pub f: %s }" % t), unit("pub struct @ { %s }" % fields)))
+    # several flattened fields next to each other (disjoint keys), with and without an own property, in a struct variant,
+    # and such a struct flattened / inlined into another
+    for bn, (t1, t2) in enumerate(TWO_FLAT):
+        f1, f2 = FLAT[t1], FLAT[t2]
+        lbl = "%s + %s" % (t1, t2)
+        pairs.append(("flatten-two-only", lbl, unit("pub struct @ { #[ts(flatten)] pub f: %s, #[ts(flatten)] pub h: %s }" % (t1, t2)), unit("pub struct @ { %s, %s }" % (f1, f2))))
+        pairs.append(("flatten-two", lbl, unit("pub struct @ { #[ts(flatten)] pub f: %s, pub tail: String, #[ts(flatten)] pub h: %s }" % (t1, t2)),
+                      unit("pub struct @ { %s, pub tail: String, %s }" % (f1, f2))))
+        v1, v2 = f1.replace("pub ", ""), f2.replace("pub ", "")
+        for rep in ("", '#[ts(tag = "t", content = "c")] ', "#[ts(untagged)] "):
+            pairs.append(("flatten-two-variant", "%s / %s" % (lbl, rep or "external"),
+                          unit(rep + "pub enum @ { A { #[ts(flatten)] f: %s, #[ts(flatten)] h: %s }, B }" % (t1, t2)), unit(rep + "pub enum @ { A { %s, %s }, B }" % (v1, v2))))
+        both, spelt = "Both%d" % bn, "BothSpelt%d" % bn      # (prelude types)
+        pairs.append(("flatten-two-nested", lbl + " / flattened again", unit("pub struct @ { #[ts(flatten)] pub both: %s, pub z: bool }" % both), unit("pub struct @ { %s, %s, pub z: bool }" % (f1, f2))))
+        pairs.append(("flatten-two-nested", lbl + " / inlined", unit("pub struct @ { #[ts(inline)] pub both: %s, pub z: bool }" % both), unit("pub struct @ { #[ts(inline)] pub both: %s, pub z: bool }" % spelt)))
     for k, t in enumerate(FLAT_ENUMS):
         units.append(corpus.Unit("XE%d" % k, "pub type XE%d = %s;" % (k, t), [], serde=False))
         pairs.append(("flatten-enum", t, unit("pub struct @ { #[ts(flatten)] pub f: %s, pub tail: String }" % t), ("inter", "XOnlyTail", "XE%d" % k)))
